@@ -59,4 +59,19 @@ theorem makeConstraint_shape :
       ("other", "expr = lhs - Constant(float(rhs))"), ("return", "Constraint(expr=expr, sense=sense)")] := by
   decide
 
+/-- `solve_lp`: the text of the statements that assemble the arguments of `linprog` and turn `result.fun` /
+    `result.x` into the reported objective and values — the text the models `Py.LPP.lpArgs` / `lpPost` (C08)
+    and `Py.Solve.postSolveLP` (C06/C07) are readings of: the cost vector is negated *out of place* under
+    `max`, rows are passed iff present, bounds iff non-empty, the objective is un-negated and `c0` added -/
+theorem lpGlue_text :
+    lpGlueArgs = ["c = lp_data.c", "if lp_data.sense == 'max': c = -c",
+      "linprog_kwargs: dict[str, Any] = {'c': c, 'method': method}",
+      "if lp_data.A_ub is not None and lp_data.b_ub is not None: linprog_kwargs['A_ub'] = lp_data.A_ub linprog_kwargs['b_ub'] = lp_data.b_ub",
+      "if lp_data.A_eq is not None and lp_data.b_eq is not None: linprog_kwargs['A_eq'] = lp_data.A_eq linprog_kwargs['b_eq'] = lp_data.b_eq",
+      "if lp_data.bounds: linprog_kwargs['bounds'] = lp_data.bounds", "linprog_kwargs.update(kwargs)"] ∧
+    lpGlueObjective = ["objective_value = float(result.fun)",
+      "if lp_data.sense == 'max': objective_value = -objective_value", "objective_value += lp_data.c0"] ∧
+    lpGlueValues = ["for i, var_name in enumerate(lp_data.variables): values[var_name] = float(result.x[i])"] :=
+  ⟨rfl, rfl, rfl⟩
+
 end Optyx.Props.Glue
